@@ -1,4 +1,7 @@
-(* C04 driver: the model's emitters on a configuration line, and the extracted strict parsers on hex *)
+(* C04 driver: the model's emitters on a configuration line, and the extracted strict parsers on hex;
+   for network level authentication: the model of the NTLM handshake (Ntlm.v), of cssp_connect and its DER writers
+   (CsspGate.v, CsspGateExec.v) -- same ops and output as harness/src/ntlmauth.rs, codec18_der.rs (cssp), csspgate.rs --
+   and the extracted strict parsers of StrictNla.v (`parsenla`) *)
 let prof () = match Sys.getenv_opt "VERIF_PROFILE" with Some "release" -> Release | _ -> Debug
 
 (* UTF-8 bytes of a case line -> Unicode scalar values (the case generator only writes well-formed UTF-8) *)
@@ -92,9 +95,87 @@ let op_parse args = match args with
   | [h] -> (match strict_parse (unhex h) with Some d -> render d | None -> "reject")
   | _ -> "bad-args"
 
+(* ---- network level authentication: the model's tokens *)
+let cps (t : Stdlib.String.t) : n list =
+  if t = "-" then [] else List.map (fun h -> n_of_int (int_of_string ("0x" ^ h))) (String.split_on_char '.' t)
+let outb (o : n list outcome) = match o with
+  | Ok v -> "ok " ^ hex v | Err e -> "err:" ^ err_name e | Panic -> "panic" | Spin -> "spin"
+let state mode dom user secret upper =
+  let u = cps upper in
+  let up = fun (_ : n list) -> u in
+  (up, if mode = "hash" then ntlm_from_hash hmac_md5 up (cps dom) (cps user) (parse_bytes secret)
+       else ntlm_new md4 hmac_md5 up (cps dom) (cps user) (cps secret))
+
+let op_auth a = match a with
+  | [mode; dom; user; secret; upper; nonce; key; chal] ->
+    let p = prof () in
+    let (_, st) = state mode dom user secret upper in
+    (match create_negotiate_message p with
+     | Ok neg -> outb (read_challenge_message hmac_md5 p st neg (parse_bytes chal) (parse_bytes nonce) (parse_bytes key))
+     | _ -> "panic")
+  | _ -> "bad-args"
+
+let op_cssp args = match args with
+  | ["req"; n] -> "ok:" ^ hex (x_create_ts_request (unhex n))
+  | ["auth"; n; k] -> "ok:" ^ hex (x_create_ts_authenticate (unhex n) (unhex k))
+  | ["cred"; d; u; pw] -> "ok:" ^ hex (x_create_ts_credentials (unhex d) (unhex u) (unhex pw))
+  | ["info"; b] -> "ok:" ^ hex (x_create_ts_authinfo (unhex b))
+  | _ -> "bad-args"
+
+let rec take k l = if k = 0 then [] else match l with [] -> [] | x :: r -> x :: take (k - 1) r
+let rec drop k l = if k = 0 then l else match l with [] -> [] | _ :: r -> drop (k - 1) r
+
+let op_csspgate a = match a with
+  | [mode; dom; user; secret; upper; ra; cert; pubkey; rnd; replies] ->
+    let (up, st) = state mode dom user secret upper in
+    let certo = if cert = "none" then Err EInvalidData else Ok (parse_bytes pubkey) in
+    let r = parse_bytes rnd in
+    let chunks = if replies = "." then [] else List.map parse_bytes (String.split_on_char ',' replies) in
+    let (res, ws) = cssp_connect_c up (prof ()) st (ra = "1") certo chunks (take 8 r) (drop 8 r) in
+    let rs = match res with Ok _ -> "ok" | Err e -> "err:" ^ err_name e | Panic -> "panic" | Spin -> "spin" in
+    String.concat " " ([rs; Printf.sprintf "n=%d" (List.length ws)] @ List.map hex ws)
+  | _ -> "bad-args"
+
+(* ---- the extracted strict parsers of StrictNla.v: canonical rendering (same text as the canon functions of gen/strictpdu.py) *)
+let opt f o = match o with None -> "none" | Some x -> f x
+let nm (x : name) = match x with NUnicode s -> "u:" ^ ns s | NOem b -> "o:" ^ hex b
+let render_neg (g : negotiate_data) =
+  Printf.sprintf "neg flags=%s dom=%s ws=%s ver=%s" (i g.g_flags) (hex g.g_domain) (hex g.g_workstation) (opt hex g.g_version)
+let render_auth (a : authenticate_data) =
+  let r = a.a_nt in
+  Printf.sprintf "auth flags=%s ver=%s mic=%s lm=%s proof=%s ts=%s cc=%s av=%s dom=%s user=%s ws=%s key=%s"
+    (i a.a_flags) (opt hex a.a_version) (hex a.a_mic) (hex a.a_lm) (hex r.r_proof) (hex r.r_timestamp) (hex r.r_client_challenge)
+    (if r.r_av_pairs = [] then "-" else String.concat "," (List.map (fun (id, v) -> i id ^ ":" ^ hex v) r.r_av_pairs))
+    (nm a.a_domain) (nm a.a_user) (nm a.a_workstation) (hex a.a_session_key)
+let render_tsreq (q : ts_request_data) =
+  Printf.sprintf "tsreq v=%s nego=%s auth=%s pka=%s err=%s nonce=%s" (i q.q_version)
+    (opt (fun l -> "[" ^ String.concat "," (List.map hex l) ^ "]") q.q_nego_tokens) (opt hex q.q_auth_info) (opt hex q.q_pub_key_auth)
+    (opt i q.q_error_code) (opt hex q.q_client_nonce)
+let render_creds (c : ts_password_creds) =
+  Printf.sprintf "creds dom=%s user=%s pw=%s" (nm c.w_domain) (nm c.w_user) (nm c.w_password)
+let render_nla (d : nla_pdu) = match d with
+  | NlaNegotiate (v, g) -> Printf.sprintf "nla1 v=%s %s" (i v) (render_neg g)
+  | NlaAuthenticate (v, a, k) -> Printf.sprintf "nla2 v=%s pka=%s %s" (i v) (hex k) (render_auth a)
+  | NlaCredentials (v, a) -> Printf.sprintf "nla3 v=%s info=%s" (i v) (hex a)
+
+let op_parsenla args =
+  let r f o = match o with Some d -> f d | None -> "reject" in
+  match args with
+  | ["nla"; h] -> r render_nla (strict_parse_nla (unhex h))
+  | ["neg"; h] -> r render_neg (sp_negotiate (unhex h))
+  | ["auth"; h] -> r render_auth (sp_authenticate (unhex h))
+  | ["tsreq"; h] -> r render_tsreq (exactly sp_ts_request (unhex h))
+  | ["creds"; u; h] -> r render_creds (exactly (sp_ts_credentials (u = "1")) (unhex h))
+  | _ -> "bad-args"
+
 let () = main_loop (fun op args -> match op with
   | "cr" -> op_cr args
   | "core" -> op_core args
   | "pdus" -> op_pdus args
   | "parse" -> op_parse args
+  | "negotiate" -> outb (create_negotiate_message (prof ()))
+  | "auth" -> op_auth args
+  | "cssp" -> op_cssp args
+  | "csspgate" -> op_csspgate args
+  | "parsenla" -> op_parsenla args
   | _ -> "unknown-op:" ^ op)
